@@ -2,6 +2,7 @@ import Rare.Base.Proto
 import Rare.Model.C02
 import Rare.Model.C02Filter
 import Rare.Model.C02Plan
+import Rare.Model.C02RxParse
 import Rare.Model.C16
 import Rare.Drv.C01
 import Rare.Gen.C02
@@ -33,6 +34,11 @@ def ansOf : Except String KeyAns → String
   real regex: the model builds the name table from the `SubexpNames()` list as the regex wrapper does
   (`C16.regexNameTable`) and looks the key up with `getKey` (decimal keys go to `GetMatch`); the pattern is only
   used by the implementation side;
+* `rx <posix> <pattern> <line>` – the regex engine itself, for the modelled fragment (`Model/C02Rx`, parsed by
+  `Model/C02RxParse`): `FindSubmatchIndex(line)` of `fastregex.CompileEx(pattern, posix)` and the wrapper's
+  name table (`idx:name` pairs by index); `unmodelled` outside the fragment (POSIX mode, non-ASCII, `{n,m}`, …);
+* `rxkey <pattern> <line> <key>` – `{key}` evaluated by the real extractor with the real regex matcher, the
+  model side computing everything from the pattern text: parser, leftmost-first matcher, name table, `GetKey`;
 * `vis <bytes>` – `color.StrLen`'s visible bytes (count compared with the real `StrLen`);
 * `pipe …`, `regexpipe <n>` – pipeline ops shared with C01.
 -/
@@ -93,6 +99,36 @@ def handle : List String → String
         | .error _ => "panic"
       | none => ansOf (getKey c k)
     | _, _, _, _ => "bad-args"
+  | ["rx", px, p, l] =>
+    match Hex.dec p, Hex.dec l with
+    | some pat, some line =>
+      if px != "0" then "unmodelled posix"
+      else if line.any (· ≥ 0x80) then "unmodelled non-ascii"
+      else match Rx.parse pat with
+        | none => "unmodelled syntax"
+        | some pr =>
+          let ix := Rx.findSubmatchIndex line pr.re pr.ng
+          let tbl := (Rare.C16.regexNameTable pr.subexpNames).mergeSort (fun a b => a.2 ≤ b.2)
+          let ns := if tbl.isEmpty then "." else ",".intercalate (tbl.map fun e => s!"{e.2}:{Hex.enc e.1}")
+          s!"ok {if ix.isEmpty then "." else ",".intercalate (ix.map toString)} {ns}"
+    | _, _ => "bad-args"
+  | ["rxkey", p, l, key] =>
+    match Hex.dec p, Hex.dec l, Hex.dec key with
+    | some pat, some line, some k =>
+      if line.any (· ≥ 0x80) then "unmodelled non-ascii"
+      else match Rx.parse pat with
+        | none => "unmodelled syntax"
+        | some pr =>
+          let indices := Rx.findSubmatchIndex line pr.re pr.ng
+          if indices.isEmpty then "ok nomatch"
+          else
+            let c : MatchCtx := ⟨line, indices, Rare.C16.regexNameTable pr.subexpNames, ascii "s0", 1⟩
+            match atoi k with
+            | some i => match getMatch line indices i with
+              | .ok b => s!"ok {Hex.enc b}"
+              | .error _ => "panic"
+            | none => ansOf (getKey c k)
+    | _, _, _ => "bad-args"
   | ["vis", b] =>
     match Hex.dec b with
     | some bytes =>
